@@ -23,7 +23,10 @@ func init() {
 	core.Prelude = func(batch int) {
 		steps := []func(){
 			func() { gps.NewTimeFromTimeSinceGPSEpoch(1167264018 * time.Second) },
-			func() { gps.Time(time.Date(2015, 7, 1, 0, 0, 0, 0, time.UTC)).TimeSinceGPSEpoch() },
+			func() {
+				gt := gps.Time(time.Date(2015, 7, 1, 0, 0, 0, 0, time.UTC))
+				gt.TimeSinceGPSEpoch()
+			},
 			func() {
 				for _, n := range []band.Name{band.AS923, band.US915, band.ISM2400, band.EU868} {
 					if b, err := band.GetConfig(n, batch%8 == 3, lorawan.DwellTime400ms); err == nil {
